@@ -15,6 +15,7 @@
 package server
 
 import (
+	"context"
 	"strings"
 	"sync"
 	"time"
@@ -53,6 +54,9 @@ func (s *Server) GetData(req *sdcpb.GetDataRequest, stream sdcpb.DataServer_GetD
 	wg := new(sync.WaitGroup)
 	wg.Add(1)
 	nCh := make(chan *sdcpb.GetDataResponse)
+	// the producer must stop when the forwarder gives up, it would wait for a reader of nCh otherwise
+	ctx, cancel := context.WithCancel(stream.Context())
+	defer cancel()
 	go func() {
 		defer wg.Done()
 		for {
@@ -66,6 +70,7 @@ func (s *Server) GetData(req *sdcpb.GetDataRequest, stream sdcpb.DataServer_GetD
 				err := stream.Send(rsp)
 				if err != nil {
 					if strings.Contains(err.Error(), "context canceled") || strings.Contains(err.Error(), "EOF") {
+						cancel()
 						return
 					}
 					log.Errorf("GetData stream send err :%v", err)
@@ -73,7 +78,7 @@ func (s *Server) GetData(req *sdcpb.GetDataRequest, stream sdcpb.DataServer_GetD
 			}
 		}
 	}()
-	err := ds.Get(stream.Context(), req, nCh)
+	err := ds.Get(ctx, req, nCh)
 	if err != nil {
 		return err
 	}
